@@ -460,7 +460,7 @@ def run_check(prop, tier, seed):
     corr = [p for p in problems if p["kind"] in ("reject", "build", "coverage")]
     reported = set()
     for p in real:
-        sig = "%s|%s" % (p["component"], p["detail"].split("\n")[0][:120])
+        sig = "%s|%s" % (p["component"], re.sub(r"\d+", "N", p["detail"].split("\n")[0][:120]))
         matched = None
         for f in kf.get("findings", []):
             if f["property"] == prop and re.search(f["match"], sig + "|" + (p["run"]["script"] if p["run"] else "")):
@@ -477,7 +477,7 @@ def run_check(prop, tier, seed):
                                        decisions=r.get("decisions"), trace=r.get("trace"), model_verdict=r.get("verdict"),
                                        lean_problem=lean_problem))
         violations.append((path, True, p["detail"].split("\n")[0][:200]))
-        if len(violations) >= 5:
+        if len(violations) >= 3:
             break
     if not violations and (corr or lean_problem):
         # correspondence or proof obligation broken but no failing input among the explored runs:
